@@ -47,6 +47,7 @@ fn run_case(case: &Sexp) -> String {
     "conc" => conc::run_conc(body),
     "sched_race" => conc::run_sched_race(body),
     "unsub_race" => conc::run_unsub_race(body),
+    "handshake" => conc::run_handshake(body),
     "locks" => locks::run_locks(body),
     "ileave" => ileave::run_ileave(body),
     "ileave2" => ileave2::run_ileave2(body),
@@ -73,7 +74,7 @@ fn run_case(case: &Sexp) -> String {
 fn may_hang(case: &Sexp) -> bool {
   let l = case.list();
   // real threads racing on a thread-safe operator: a lock-order mistake makes them wait for each other for ever
-  if matches!(l[2].atom(), "finalize_race" | "unsub_race") {
+  if matches!(l[2].atom(), "finalize_race" | "unsub_race" | "handshake") {
     return true;
   }
   matches!(l[2].atom(), "flatten" | "finalize") && l[3].atom() == "threads"
